@@ -177,6 +177,11 @@ type ReplayFile struct {
 	Unshrunk []uint32 `json:"unshrunk_tape,omitempty"`
 	Build    string   `json:"build"`
 	Outcome  *Outcome `json:"outcome"`
+	// ReplayRange, when set, says that the violation depends on state left in
+	// the process by the preceding runs of the same child process: the replay
+	// re-executes runs [from, to) from their seeds in one fresh child and expects
+	// the violation at run to-1.
+	ReplayRange []int `json:"replay_range,omitempty"`
 }
 
 // Finding is one entry of known_findings.json.
@@ -584,7 +589,17 @@ func (ck *Check) replay(path string) int {
 			continue
 		}
 		var out *Outcome
-		if b.Isolated || (rf.Outcome != nil && rf.Outcome.Class == "hang") {
+		if len(rf.ReplayRange) == 2 {
+			r := ck.spawn(b, rf.Seed, []string{"child", b.Name, rf.Tier, strconv.Itoa(rf.ReplayRange[0]), strconv.Itoa(rf.ReplayRange[1])}, nil, true)
+			if len(r.outs) > 0 && r.outs[0].Index == rf.Run {
+				out = r.outs[0].Outcome
+			} else if r.end == nil && r.lastRun == rf.Run {
+				out = abortOutcome(b, r)
+			} else if len(r.outs) > 0 {
+				fmt.Printf("replay %s: an earlier run of the range (%d) failed instead: %s\n", path, r.outs[0].Index, r.outs[0].Outcome.Detail)
+				out = r.outs[0].Outcome
+			}
+		} else if b.Isolated || (rf.Outcome != nil && rf.Outcome.Class == "hang") {
 			var ok bool
 			bb := *b
 			if !b.Isolated {
@@ -652,11 +667,29 @@ func (ck *Check) reportIsolated(v viol, seed uint64, tier string) string {
 	if !ok || out == nil || out.Class != v.out.Class {
 		out, rec = v.out, tape
 	}
+	var rng []int
+	if !reproduced && b.PerProc > 1 {
+		// the failure may need the state the earlier runs of its child process
+		// left behind: replay the child's whole range up to this run
+		from := v.run - v.run%b.PerProc
+		r := ck.spawn(b, seed, []string{"child", b.Name, tier, strconv.Itoa(from), strconv.Itoa(v.run + 1)}, nil, false)
+		hit := len(r.outs) > 0 && r.outs[0].Index == v.run && r.outs[0].Outcome != nil && r.outs[0].Outcome.Class == v.out.Class
+		if !hit && r.end == nil && r.lastRun == v.run {
+			if o := abortOutcome(b, r); o != nil && o.Class == v.out.Class {
+				hit = true
+			}
+		}
+		if hit {
+			rng = []int{from, v.run + 1}
+			reproduced = true
+			fmt.Fprintf(os.Stderr, "the violation reproduces when runs %d..%d are replayed in one fresh process\n", from, v.run)
+		}
+	}
 	if rec == nil {
 		rec = small
 	}
 	rf := ReplayFile{Property: ck.Prop, Harness: ck.Harness, Batch: b.Name, Seed: seed, Run: v.run, Tier: tier,
-		Tape: trimZeros(rec), Build: os.Getenv("VERIF_BUILD"), Outcome: out}
+		Tape: trimZeros(rec), Build: os.Getenv("VERIF_BUILD"), Outcome: out, ReplayRange: rng}
 	if len(tape) <= 4096 {
 		rf.Unshrunk = tape
 	}
